@@ -4,7 +4,7 @@
 ID=$1; SFX=$2; W=/tmp/seed-$ID$SFX; S=$W/_seed; LOG=/tmp/confirm-$ID$SFX.log
 exec > $LOG 2>&1
 cd $W || exit 2
-git diff -- . ':!_seed' ':!_build' > /tmp/confirm-$ID$SFX.cur.diff
+git diff > /tmp/confirm-$ID$SFX.cur.diff
 [ -s /tmp/confirm-$ID$SFX.cur.diff ] || git apply $S/patch.diff || { echo "CANNOT APPLY"; exit 2; }
 timeout 1200 cmake --build $W/_build -j8 2>&1 | tail -2
 timeout 300 sh $S/run_demo.sh > /tmp/confirm-$ID$SFX.demo1 2>&1; D1=$?
